@@ -271,6 +271,16 @@ def targeted_programs(dev):
                     Rk(lc=long), Rk(srack=long), Rk(drack=long), Rk(sid=long), Rk(stype=long), Rk(did=long), Rk(dtype=long), Rk(lc=long, dtype=long),
                     Wk("aspirate_well", rack=long[:32]), Wk("aspirate_well", rack=long[:32], lc=long)]
         progs.append(h)
+    # reductions with decimal volumes that divide max_volume exactly "in decimal terms" (200 / 1.6 = 125): the count is reduced
+    # only as far as needed
+    for M, cents in ((200, 160), (1000, 80), (950, 76), (950, 20), (100, 30), (950, 190)):
+        lws = [gen.mk_plate("plate", 2, 2, 0, 10, [0, 0, 0, 0])]
+        h = gen.header(f"emit/multidisp-decimal-{M}-{cents}", dev, Fraction(1), M, lws, flags={"comp": False, "norm": False, "robot": False})
+        fit = (M * 100) // cents
+        h["ops"] = [{"op": "emit", "fn": "reagent_distribution",
+                     "args": {"srack": "S", "s1": I(1), "s2": I(8), "drack": "D", "d1": I(1), "d2": I(96), "vol": {"cls": "cents", "v": cents}, "md": I(md)}}
+                    for md in (fit + 50, fit + 1, fit, fit - 1)]
+        progs.append(h)
     # few destination wells (also after exclusions): the multi-dispense count depends on volume and max_volume only
     lws = [gen.mk_plate("plate", 2, 2, 0, 10, [0, 0, 0, 0])]
     h = gen.header("emit/multidisp-few-wells", dev, Fraction(1), 950, lws, flags={"comp": False, "norm": False, "robot": False})
